@@ -34,6 +34,13 @@ PREFIXES = ["a", "A", "a_", "a%", "a.", "é", "É", "P", "p", "Pyro.", "pyro.", 
 REGEXES = ["a", "A", "a.", "a\\.b", "^a", "a$", ".*", ".", "a|é", "(", "[a", "a(", "a+", "a\\+", "a\\(",
            "Pyro\\..*", "(?i)a", "é", "a%", "a_b$", "", "*"]
 TAGS = ["t", "T", "t_", "t%", "", "u"]
+# names / tags that AS A WHOLE read as a number to something that is not strictly textual (column type affinity,
+# int()/float() conversion): families that collide numerically but are different strings
+NUM_NAMES = ["42", "042", "0042", "4.2e1", "42.0", "1e3", "1000", "1_000", "3.1", "3.10", "-7", "+7", "7", "0x10", "16",
+             " 42", "42 ", "inf", "nan", "1e999", ".5", "0.5", "\u0664\u0662", "\uff14\uff12", NSNAME]
+NUM_PREFIXES = ["4", "04", "42", "0", "1", "1e", "3.1", "-", "+", " ", ".", "\u0664", ""]
+NUM_REGEXES = ["\\d+", "\\d+$", "0*42", "4.*", "[0-9.]+$", "42", "1e3", "-?7", ".*", "\\s*42", "[+-]", "(?a)\\d+$", "("]
+NUM_TAGS = ["42", "042", "3.1", "3.10", "1e3", "1000", "-7", "+7", "7", " 42", "\u0664\u0662", "t", ""]
 MUTATING = ("register", "register-safe", "remove-name", "remove-prefix", "remove-regex", "set_metadata")
 
 
@@ -314,6 +321,15 @@ def model_apply(m, op):
     raise ValueError(k)
 
 
+def _numval(s):
+    """the number a sloppy reader would take the whole string for (None: it is no numeric literal)"""
+    try:
+        v = float(s)
+    except ValueError:
+        return None
+    return v if v == v else "nan"
+
+
 def _ascii_lower(s):
     return "".join(chr(ord(c) + 32) if "A" <= c <= "Z" else c for c in s)
 
@@ -322,7 +338,9 @@ def _prefix_causes(prefix, extra):
     """why did the sqlite back-end select these names although they do not start with prefix?"""
     causes = set()
     for n in extra:
-        if _ascii_lower(n).startswith(_ascii_lower(prefix)):
+        if not isinstance(n, str):
+            causes.add(None)
+        elif _ascii_lower(n).startswith(_ascii_lower(prefix)):
             causes.add("prefix-case")
         elif "_" in prefix or "%" in prefix:
             causes.add("prefix-wildcard")
@@ -411,10 +429,11 @@ class NsModelWorld(World):
             "callers invoke NameServer methods directly (no wire, no serializer)"]
     PROBES = ["reopen", "stmt_fail", "crash_point", "commit_fail", "ns_entry_protected", "regex_remove", "prefix_remove",
               "yplookup_all", "yplookup_any", "unicode_name", "wildcard_prefix", "case_pair", "duplicate_tags",
-              "invalid_regex"]
+              "invalid_regex", "numeric_name", "numeric_collision", "numeric_tag"]
     RULE = ("plan = (configuration A|B, history of 6-14 (A) / 3-7 (B) operations over 3-7 names drawn from a colliding "
             "alphabet: case pairs, SQL wildcards, regex metacharacters, unicode, empty string, the name server's own "
-            "name; tags likewise with duplicates). A: model, memory and sqlite in lockstep, outcome of every operation "
+            "name, or (28% of the plans) strings that as a whole are numeric literals colliding by value ('42','042','4.2e1',"
+            "'1e3','1000','3.1','3.10','+7',' 42', unicode digits, inf, nan ...), 10% both; tags likewise with duplicates). A: model, memory and sqlite in lockstep, outcome of every operation "
             "and full listing after every mutation compared three ways. B: additionally every statement of every "
             "mutating operation is a failure point and a crash point (database restored to the pre-operation image "
             "each time). distinct = distinct plan; non-trivial = A: at least one mutation and one query were compared, "
@@ -433,16 +452,27 @@ class NsModelWorld(World):
     # ---------------------------------------------------------------- plans
     def gen(self, rng, tier):
         cfg = "B" if rng.random() < 0.25 else "A"
-        names = rng.sample(NAMES, rng.randint(3, 6))
+        # alphabet family of this history: textual collisions, numeric-literal collisions, or both
+        r = rng.random()
+        if r < 0.62:
+            pool = {"names": NAMES, "prefixes": PREFIXES, "regexes": REGEXES, "tags": TAGS}
+        elif r < 0.9:
+            pool = {"names": NUM_NAMES, "prefixes": NUM_PREFIXES, "regexes": NUM_REGEXES, "tags": NUM_TAGS}
+        else:
+            pool = {"names": NAMES + NUM_NAMES[:-1], "prefixes": PREFIXES + NUM_PREFIXES, "regexes": REGEXES + NUM_REGEXES,
+                    "tags": TAGS + NUM_TAGS[:-2]}
+        names = rng.sample(pool["names"], rng.randint(3, 6))
         if rng.random() < 0.35 and NSNAME not in names:
             names.append(NSNAME)
         nops = rng.randint(6, 14) if cfg == "A" else rng.randint(3, 7)
         nreg = rng.randint(1, 3)
-        ops = [self._gen_op(rng, names, cfg, i < nreg) for i in range(nops)]
+        ops = [self._gen_op(rng, names, cfg, i < nreg, pool) for i in range(nops)]
         return {"config": cfg, "ops": ops}
 
     @staticmethod
-    def _gen_op(rng, names, cfg, force_register):
+    def _gen_op(rng, names, cfg, force_register, pool):
+        NAMES, PREFIXES, REGEXES, TAGS = pool["names"], pool["prefixes"], pool["regexes"], pool["tags"]
+
         def name():
             return rng.choice(names) if rng.random() < 0.9 else rng.choice(NAMES)
 
@@ -766,6 +796,12 @@ class NsModelWorld(World):
         arg = op.get("name") if "name" in op else op.get("arg")
         if isinstance(arg, str) and any(ord(c) > 127 for c in arg) and any(any(ord(c) > 127 for c in n) for n in before):
             ctx.probe("unicode_name")
+        if isinstance(arg, str) and _numval(arg) is not None and arg in after:
+            ctx.probe("numeric_name")
+            if any(n != arg and _numval(n) == _numval(arg) for n in after):
+                ctx.probe("numeric_collision")      # e.g. "42" and "042" are both registered
+        if k in ("register", "set_metadata") and expect[0] == "ok" and any(_numval(t) is not None for t in (op.get("meta") or ())):
+            ctx.probe("numeric_tag")
         if kind in ("list-prefix", "remove-prefix") and op["arg"] and ("_" in op["arg"] or "%" in op["arg"]) and before:
             ctx.probe("wildcard_prefix")
         if k in ("register", "set_metadata", "yplookup"):
